@@ -164,7 +164,7 @@ def approx_oracle(inp_pts, inp_faces, tri_in, pts, faces, l_min, size, meas):
     r = l_min / size
     used = sorted(set(a for t in faces for a in t))
     dmax = 0.0
-    step = max(1, len(used) // 400)
+    step = max(1, len(used) // 4000)       # every node (a single misplaced node is a violation), sampled only above 4000 nodes
     for i in used[::step]:
         d = U.dist_to_surface(pts[i], inp_pts, tri_in)
         dmax = max(dmax, d)
@@ -286,6 +286,20 @@ def gen_cases(r, tier, widen):
             tri = 0              # triangulation disabled: the input goes to the gate as it is
         cases.append({"kind": kind, "pts": pts, "faces": faces, "outward": f, "ratio": ratio, "l_min": l_min, "size": size,
                       "tri": tri, "winding_mode": mode, "flips": flips, "scale": s, "celltype": r.choice([0, 0, 1, 2, 3, 4])})
+    # sharp-edged flat prisms AWAY from the origin: the shapes on which ball pivoting leaves several holes in one run, so that
+    # fill_surface_holes is exercised more than once per reconstruction, at a place where an absolute position would show
+    for k in range(24 if tier == "quick" and not widen else 80):
+        v, f = U.prism(r.choice([3, 3, 4]), 1.5, 0.6)
+        f = [list(t) for t in f]
+        R = rot_matrix(r)
+        sc = 10.0 ** r.uniform(-6, 1)
+        off = [r.choice([-1, 1]) * r.uniform(4, 8) * sc for _ in range(3)]
+        pts = [[sc * sum(R[i][q] * p[q] for q in range(3)) + off[i] for i in range(3)] for p in v]
+        faces, flips, mode = rewind(r, f)
+        size = extent(pts, faces)
+        ratio = r.uniform(0.05, 0.07)
+        cases.append({"kind": "prism-far", "pts": pts, "faces": faces, "outward": f, "ratio": ratio, "l_min": ratio * size, "size": size,
+                      "tri": 1, "winding_mode": mode, "flips": flips, "scale": sc, "celltype": 0})
     return cases
 
 
